@@ -681,14 +681,19 @@ class Unit:
 # ---------------------------------------------------------------------------
 
 
-def _stmt_table(raw: types.FunctionType) -> dict[int, tuple[str, int, int]]:
-    """lineno -> (kind, header_end, end_lineno) for every statement of the real function."""
+def _stmt_table(raw: types.FunctionType) -> dict[int, tuple[int, str, int, int]]:
+    """line -> (stmt_start, kind, header_end, end_lineno) for every line that lies in the *header*
+    of a statement of the real function (simple statement: all its lines; compound statement: the
+    lines before its body).  The interpreter may report any header line first (e.g. the condition
+    line of a multi-line conditional expression), so statement executions are recognised by
+    *entering a header*, not by seeing the statement's first line."""
     src = textwrap.dedent(inspect.getsource(raw))
     tree = ast.parse(src)
     ast.increment_lineno(tree, raw.__code__.co_firstlineno - 1)
-    table: dict[int, tuple[str, int, int]] = {}
+    table: dict[int, tuple[int, str, int, int]] = {}
+    top = tree.body[0]
     for node in ast.walk(tree):
-        if not isinstance(node, ast.stmt) or isinstance(node, (ast.FunctionDef, ast.ClassDef, ast.Global, ast.Nonlocal, ast.Pass)):
+        if not isinstance(node, ast.stmt) or node is top or isinstance(node, (ast.Global, ast.Nonlocal, ast.Pass)):
             continue
         end = getattr(node, "end_lineno", node.lineno) or node.lineno
         body = getattr(node, "body", None)
@@ -697,7 +702,8 @@ def _stmt_table(raw: types.FunctionType) -> dict[int, tuple[str, int, int]]:
             kind = "loop" if isinstance(node, (ast.While, ast.For)) else "block"
         else:
             header_end, kind = end, "simple"
-        table.setdefault(node.lineno, (kind, header_end, end))
+        for ln in range(node.lineno, header_end + 1):
+            table.setdefault(ln, (node.lineno, kind, header_end, end))
     return table
 
 
@@ -814,7 +820,7 @@ def replay_real(unit: "Unit", thread_bodies: list[Callable[[], Any]], trace: lis
                     in_last[idx] = True  # executes the statement; it blocks or the thread ends
 
     def make_tracer(idx: int):
-        last_line: dict[int, int] = {}
+        cur_stmt: dict[int, int] = {}  # frame id -> start line of the statement being executed
 
         def local(frame, event, arg):  # type: ignore[no-untyped-def]
             tab = codes.get(frame.f_code)
@@ -822,23 +828,21 @@ def replay_real(unit: "Unit", thread_bodies: list[Callable[[], Any]], trace: lis
                 return local
             fid = id(frame)
             if event == "return":
-                last_line.pop(fid, None)
+                cur_stmt.pop(fid, None)
                 return local
             if event != "line":
                 return local
-            ln = frame.f_lineno
-            prev = last_line.get(fid)
-            last_line[fid] = ln
-            info = tab.get(ln)
+            info = tab.get(frame.f_lineno)
             if info is None:
-                return local
-            kind, header_end, end = info
-            if prev is not None:
-                if ln < prev <= header_end:
-                    return local  # back on the first line of a multi-line header
-                if kind == "block" and header_end < prev <= end:
-                    return local  # block exit (with/try/if) reported on the header line
-            on_statement(idx, frame.f_code.co_filename, ln)
+                return local  # a line outside every statement header (except/else/finally clause lines)
+            start, kind, header_end, end = info
+            prev = cur_stmt.get(fid)
+            if prev == start:
+                return local  # still inside the same (multi-line) statement header
+            cur_stmt[fid] = start
+            if kind == "block" and prev is not None and header_end < prev <= end:
+                return local  # leaving a with/try/if block: the header line is reported again
+            on_statement(idx, frame.f_code.co_filename, start)
             return local
 
         def glob(frame, event, arg):  # type: ignore[no-untyped-def]
